@@ -1,2 +1,167 @@
+//! `list` (C16): a list (optionally concatenated with a second one) built through start_list / add_to_list / end_list;
+//! everything the data interface and the runtime report about it: length, items at in-range and out-of-range indexes,
+//! iteration order, look-up of every listed symbol - at the data level (GarnishData getters) and at the runtime
+//! level (Access, Apply, AccessLengthInternal instructions).
+use crate::guarded;
+use crate::store::{BasicN, Host, SimpleD, Store};
+use crate::val::{full_extents, make, show, sym_of_name};
+use garnish_lang::simple::{execute_current_instruction, DataError, SimpleNumber};
+use garnish_lang::Instruction;
 use serde_json::{json, Value};
-pub fn list_case(_c: &Value) -> Value { json!({}) }
+
+fn first_line(e: &DataError) -> String {
+    crate::run::msg_key(&format!("{}", e))
+}
+
+fn build_list<S: Store>(d: &mut S, items: &[Value]) -> Result<(usize, Vec<usize>), String> {
+    let mut addrs = vec![];
+    for it in items {
+        addrs.push(make(d, it)?);
+    }
+    let mut l = d.start_list(addrs.len()).map_err(|e| format!("start_list: {}", e))?;
+    for a in &addrs {
+        l = d.add_to_list(l, *a).map_err(|e| format!("add_to_list: {}", e))?;
+    }
+    let l = d.end_list(l).map_err(|e| format!("end_list: {}", e))?;
+    Ok((l, addrs))
+}
+
+/// one instruction on operands that already exist; the result is what it leaves above the sentinel
+fn exec<S: Store>(d: &mut S, ins: Instruction, operands: &[usize]) -> Value {
+    let r = guarded(|| {
+        let e = |x: DataError| format!("{}", x);
+        let sentinel = d.add_number(SimpleNumber::Integer(7777)).map_err(e)?;
+        while d.get_register_len() > 0 {
+            if d.pop_register().map_err(e)?.is_none() {
+                break;
+            }
+        }
+        d.push_register(sentinel).map_err(e)?;
+        for a in operands {
+            d.push_register(*a).map_err(e)?;
+        }
+        let i = d.push_instruction(ins, None).map_err(e)?;
+        d.push_instruction(Instruction::EndExpression, None).map_err(e)?;
+        d.set_instruction_cursor(i).map_err(e)?;
+        match execute_current_instruction(d) {
+            Err(x) => Ok::<Value, String>(json!({"r": "err", "msgk": crate::run::msg_key(&format!("{} | {:?}", x.get_message(), std::error::Error::source(&x).map(|s| s.to_string().lines().next().unwrap_or("").to_string())))})),
+            Ok(_) => {
+                let regs = d.reg_addrs();
+                if regs.len() == 2 && regs[0] == sentinel {
+                    Ok(json!({"r": "ok", "v": show(d, regs[1], 0)}))
+                } else {
+                    Ok(json!({"r": "stack", "n": regs.len()}))
+                }
+            }
+        }
+    });
+    match r {
+        Err(m) => json!({"r": "panic", "msgk": m}),
+        Ok(Err(m)) => json!({"r": "setuperr", "msgk": m}),
+        Ok(Ok(v)) => v,
+    }
+}
+
+fn opt_json<S: Store>(d: &S, r: Result<Option<usize>, DataError>) -> Value {
+    match r {
+        Ok(Some(a)) => json!({"r": "some", "v": show(d, a, 0)}),
+        Ok(None) => json!({"r": "none"}),
+        Err(e) => json!({"r": "err", "msgk": first_line(&e)}),
+    }
+}
+
+fn observe<S: Store>(case: &Value) -> Value {
+    let items = case["items"].as_array().cloned().unwrap_or_default();
+    let second = case["second"].as_array().cloned().unwrap_or_default();
+    let syms: Vec<String> = case["syms"].as_array().map(|a| a.iter().map(|s| s.as_str().unwrap_or("").to_string()).collect()).unwrap_or_default();
+    let r = guarded(|| {
+        let mut d = S::fresh(Host::default());
+        let u = d.add_unit().map_err(|e| format!("{}", e))?;
+        d.push_value_stack(u).map_err(|e| format!("{}", e))?;
+        for k in 0..case["pad"].as_u64().unwrap_or(0) {
+            d.add_number(SimpleNumber::Integer(1000 + k as i32)).map_err(|e| format!("{}", e))?;
+        }
+        let (l, _) = build_list(&mut d, &items)?;
+        let n = items.len() as i32;
+        let mut o = json!({"store": S::name(), "status": "ok"});
+        o["len"] = d.get_list_len(l).map(|x| json!(x)).unwrap_or(json!(-1));
+        let mut probes: Vec<i32> = vec![-1, n, n + 1, i32::MAX, i32::MIN];
+        probes.extend(0..n);
+        probes.sort();
+        probes.dedup();
+        let mut idx = vec![];
+        for i in &probes {
+            let mut e = match guarded(|| d.get_list_item(l, SimpleNumber::Integer(*i))) {
+                Ok(r) => opt_json(&d, r),
+                Err(m) => json!({"r": "panic", "msgk": m}),
+            };
+            e["i"] = json!(*i);
+            idx.push(e);
+        }
+        o["index"] = json!(idx);
+        o["iter"] = match guarded(|| d.get_list_item_iter(l, full_extents()).map(|it| it.collect::<Vec<usize>>())) {
+            Ok(Ok(v)) => json!({"r": "ok", "v": v.iter().map(|a| show(&d, *a, 0)).collect::<Vec<_>>()}),
+            Ok(Err(e)) => json!({"r": "err", "msgk": first_line(&e)}),
+            Err(m) => json!({"r": "panic", "msgk": m}),
+        };
+        let mut look = vec![];
+        for s in &syms {
+            let sv = sym_of_name(s);
+            let mut e = match guarded(|| d.get_list_item_with_symbol(l, sv)) {
+                Ok(r) => opt_json(&d, r),
+                Err(m) => json!({"r": "panic", "msgk": m}),
+            };
+            e["s"] = json!(s);
+            look.push(e);
+        }
+        o["lookup"] = json!(look);
+        // ---- runtime level, on the list and (if given) on the concatenation  list <> second
+        let mut targets = vec![("list", l, n)];
+        if !second.is_empty() || case["concat"].as_bool().unwrap_or(false) {
+            let (l2, _) = build_list(&mut d, &second)?;
+            let c = d.add_concatenation(l, l2).map_err(|e| format!("{}", e))?;
+            targets.push(("concat", c, n + second.len() as i32));
+        }
+        let mut rt = vec![];
+        for (name, t, tn) in targets {
+            let mut e = json!({"on": name});
+            e["len"] = exec(&mut d, Instruction::AccessLengthInternal, &[t]);
+            let mut ps: Vec<i32> = vec![-1, tn, tn + 1];
+            ps.extend(0..tn);
+            ps.sort();
+            ps.dedup();
+            let mut acc = vec![];
+            for i in ps {
+                let k = d.add_number(SimpleNumber::Integer(i)).map_err(|e| format!("{}", e))?;
+                let mut a = exec(&mut d, Instruction::Access, &[t, k]);
+                a["i"] = json!(i);
+                a["apply"] = exec(&mut d, Instruction::Apply, &[t, k]);
+                acc.push(a);
+            }
+            e["index"] = json!(acc);
+            let mut lk = vec![];
+            for s in &syms {
+                let k = d.add_symbol(sym_of_name(s)).map_err(|e| format!("{}", e))?;
+                let mut a = exec(&mut d, Instruction::Access, &[t, k]);
+                a["s"] = json!(s);
+                a["apply"] = exec(&mut d, Instruction::Apply, &[t, k]);
+                lk.push(a);
+            }
+            e["lookup"] = json!(lk);
+            rt.push(e);
+        }
+        o["rt"] = json!(rt);
+        Ok::<Value, String>(o)
+    });
+    match r {
+        Err(m) => json!({"store": S::name(), "status": "panic", "msgk": m}),
+        Ok(Err(m)) => json!({"store": S::name(), "status": "builderr", "msgk": crate::run::msg_key(&m)}),
+        Ok(Ok(v)) => v,
+    }
+}
+
+pub fn list_case(case: &Value) -> Value {
+    let mut o = case.clone();
+    o["runs"] = json!([observe::<SimpleD>(case), observe::<BasicN>(case)]);
+    o
+}
